@@ -283,6 +283,55 @@ def rule_range(ctx):
     return n
 
 
+def rule_retry_raise(ctx, rule='C11.RETRYRAISE'):
+    """Inside the epoch-validated retry loop of MerkleCache.branch_and_root the branch is computed from a level that a
+    concurrent truncate() may have cut; Merkle.branch_and_root(_from_level) then fails its own consistency checks with
+    ValueError.  That exception says nothing about the request: it must not leave the loop unless the truncation counter
+    is unchanged - i.e. each such computation sits in a `try` whose ValueError handler compares the counter with the
+    snapshot and re-raises only when they are equal."""
+    f = ctx.func('merkle', 'MerkleCache.branch_and_root')
+    loops = [s_ for s_ in f.node.body if isinstance(s_, ast.While)]
+    comps = [c for c in q.own_calls(f) if q.callee_name(ctx, f, c) in ('self.merkle.branch_and_root', 'self.merkle.branch_and_root_from_level')]
+    n = 0
+    for c in comps:
+        n += 1
+        st = q.stmt(c)
+        ok, why = False, 'not inside a try that handles ValueError'
+        for p_, _fld in q.enclosing_chain(st, f.node):
+            if not isinstance(p_, ast.Try) or not any(any(y is st for y in ast.walk(x)) for x in p_.body):
+                continue
+            for h in p_.handlers:
+                names = [norm(x).split('.')[-1] for x in ((h.type.elts if isinstance(h.type, ast.Tuple) else [h.type]) if h.type else ['*'])]
+                if not any(nm in ('ValueError', 'Exception', '*') for nm in names):
+                    continue
+                # the handler: raise only under `snapshot == self.truncations`, otherwise go round again
+                from .. import paths as P
+                good = True
+                seen_raise = seen_retry = False
+                for pth in P.paths(h.body):
+                    same = None
+                    for t, pol, _n in pth.conds:
+                        if isinstance(t, ast.Compare) and len(t.ops) == 1 and isinstance(t.ops[0], (ast.Eq, ast.NotEq)) \
+                                and 'self.truncations' in (ctx.res.canon(t.left, f), ctx.res.canon(t.comparators[0], f)):
+                            same = (pol == isinstance(t.ops[0], ast.Eq))
+                    if pth.exit == 'raise':
+                        seen_raise = True
+                        good = good and same is True
+                    elif pth.exit in ('continue', 'fall'):
+                        seen_retry = True
+                        good = good and same is False
+                    else:
+                        good = False
+                ok = good and seen_raise and seen_retry
+                why = 'the ValueError handler does not re-raise exactly when the truncation counter is unchanged'
+        in_loop = bool(loops) and q.in_body(st, loops[0].body)
+        ctx.check(ok and in_loop, rule, ctx.key(f, st, 'consistency failure re-validated'),
+                  'a consistency failure of the computation is raised only if no truncation happened since the snapshot; otherwise retried',
+                  f'`{norm(c.func)}` can raise ValueError out of the retry loop ({why}): a level cut by a concurrent truncate() fails the '
+                  'consistency check and a request that is valid on the new chain ends in an internal error', loc=ctx.loc(f, c))
+    return n
+
+
 def rule_cachefill(ctx, rule='C11.CACHES'):
     '''_merkle_cache / _tx_hashes_cache are filled only from validated reads (no unvalidated suspension before the store,
     nor between the validated read and _merkle_branch in its callers).'''
